@@ -47,6 +47,9 @@ m("c07_store_before_clone", ["C07"], "src/signal.rs",
 m("c08_send_le_capacity", ["C08", "C18", "C03"], "src/lib.rs",
   "        } else if internal.queue.len() < internal.capacity {\n            // Safety: MaybeUninit is acting like a ManuallyDrop\n            internal.queue.push_back(data);",
   "        } else if internal.queue.len() <= internal.capacity {\n            // Safety: MaybeUninit is acting like a ManuallyDrop\n            internal.queue.push_back(data);")
+m("c08_unbounded_try_send_refuses_at_40", ["C08", "C01"], "src/lib.rs",
+  "                unsafe { first.send(data) }\n                return Ok(true);\n            } else if internal.queue.len() < internal.capacity {\n                internal.queue.push_back(data);\n                return Ok(true);\n            }\n            Ok(false)\n        }\n\n        /// Tries sending to the channel without waiting on the waitlist, if\n        /// send fails then the object will be dropped. It returns `Ok(true)` in\n        /// case of a successful operation and `Ok(false)` for a failed one, or\n        /// error in case that channel is closed. Important note: this function\n        /// is not lock-free as it acquires a mutex guard of the channel\n        /// internal for a short time.\n        ///\n        /// # Examples\n        ///\n        /// ```\n        /// # use std::thread::spawn;\n        /// let (s, r) = kanal::bounded(0);\n        /// let t=spawn( move || {\n        ///     let mut opt=Some(1);",
+  "                unsafe { first.send(data) }\n                return Ok(true);\n            } else if internal.queue.len() < internal.capacity && internal.queue.len() != 40 {\n                internal.queue.push_back(data);\n                return Ok(true);\n            }\n            Ok(false)\n        }\n\n        /// Tries sending to the channel without waiting on the waitlist, if\n        /// send fails then the object will be dropped. It returns `Ok(true)` in\n        /// case of a successful operation and `Ok(false)` for a failed one, or\n        /// error in case that channel is closed. Important note: this function\n        /// is not lock-free as it acquires a mutex guard of the channel\n        /// internal for a short time.\n        ///\n        /// # Examples\n        ///\n        /// ```\n        /// # use std::thread::spawn;\n        /// let (s, r) = kanal::bounded(0);\n        /// let t=spawn( move || {\n        ///     let mut opt=Some(1);")
 m("c09_clone_async_no_count", ["C09", "C12", "C18"], "src/lib.rs",
   "    pub fn clone_async(&self) -> AsyncSender<T> {\n        let mut internal = acquire_internal(&self.internal);\n        if internal.send_count > 0 {\n            internal.send_count += 1;\n        }",
   "    pub fn clone_async(&self) -> AsyncSender<T> {\n        let mut internal = acquire_internal(&self.internal);\n        if internal.send_count > 1 {\n            internal.send_count += 1;\n        }")
@@ -108,6 +111,15 @@ for name, props, file, old, new, count in M:
     d = sh("git", "-C", SCR, "diff").stdout
     open(os.path.join(OUT, name + ".diff"), "w").write(d)
     sh("git", "-C", SCR, "checkout", "--", ".")
+    meta[name] = {"expected_catchers": props, "file": file}
+# reverse patches of the fix commits (the defects of DESIGN.md section 12 reintroduced)
+for name, commit, props, file in [
+    ("d2_reintroduced_option_timeout_double_drop", "afac4a8", ["C05", "C13"], "src/lib.rs"),
+    ("d3_reintroduced_send_future_stale_waker", "6e741dd", ["C16", "C06"], "src/future.rs"),
+    ("d4_reintroduced_recv_future_waker_race", "6b56da1", ["C07"], "src/future.rs"),
+]:
+    d = sh("git", "-C", "/repo", "diff", commit, commit + "~1", "--", "src").stdout
+    open(os.path.join(OUT, name + ".diff"), "w").write(d)
     meta[name] = {"expected_catchers": props, "file": file}
 json.dump(meta, open(os.path.join(OUT, "mutants.json"), "w"), indent=1)
 shutil.rmtree(SCR, ignore_errors=True)
